@@ -17,9 +17,10 @@ int role0[POOL];
 static void havoc_cells(kcell_t* kc, vcell_t* vc, int node, _Bool occupied) {
 #ifdef XV_NT
   if (occupied) {
+    /* node: constant */
     g_node[node].data.first = nondet_u64(); g_node[node].data.second = nondet_u64(); node_retired[node] = 0;
     *vc = &g_node[node]; *kc = XV_HASH(g_node[node].data.first);
-  } else { unsigned i = nondet_uint(); *vc = (i < NN) ? &g_node[i] : 0; *kc = nondet_u64(); }
+  } else { *vc = node_at(nondet_uint()); *kc = nondet_u64(); }
 #else
   *kc = nondet_u64(); *vc = nondet_u64();
 #endif
@@ -28,16 +29,20 @@ static void build_state(int maxchain) {
   XV_ASSUME(NSLOT == bucket_item_count);
   in_key = nondet_u64(); in_gk = nondet_u64(); in_value = nondet_u64();
   in_mask = nondet_u32(); in_ebc = nondet_u32(); in_ic = nondet_u32(); in_n = nondet_uint();
-  XV_ASSUME(in_mask <= 1 && in_ebc <= XV_NEB && in_ic <= NSLOT && in_n <= (unsigned)maxchain);
+  XV_ASSUME(in_mask == XV_MASK && in_ebc <= XV_NEB && in_ic <= NSLOT && in_n <= (unsigned)maxchain);
   XV_ASSUME(in_n == 0 || in_ic == NSLOT);
   g_map.data_block = &g_blk; g_map.resize_lock = 0;
-  g_blk.mask = in_mask; g_blk.bucket_count = in_mask + 1; g_blk.extension_bucket_count = in_ebc; g_blk.extension_buckets = g_eb; g_blk.bkts = g_bk;
+  g_blk.mask = XV_MASK; g_blk.bucket_count = XV_MASK + 1; g_blk.extension_bucket_count = in_ebc; g_blk.extension_buckets = g_eb; g_blk.bkts = g_bk;
   g_eb_base = nondet_uptr(); XV_ASSUME(g_eb_base % sizeof(extension_bucket) == 0 && g_eb_base < ((uintptr_t)1 << 62));
   for (int i = 0; i < NN; ++i) { node_retired[i] = nondet_bool(); g_node[i].data.first = nondet_u64(); g_node[i].data.second = nondet_u64(); }
   retire_count = 0; last_retired = 0; reclaim_of_null = 0; new_count = 0; factory_calls = 0; cb_count = 0; cb_cell = 0; eb_at_ok = 1; xv_threw = 0;
   /* the bucket under test */
   hash_t h = XV_HASH(in_key);
-  g_B = &g_bk[h & in_mask]; g_other = &g_bk[(h & in_mask) ^ 1];
+#if XV_MASK == 0
+  g_B = &g_bk[0]; g_other = 0;
+#else
+  if (h & 1) { g_B = &g_bk[1]; g_other = &g_bk[0]; } else { g_B = &g_bk[0]; g_other = &g_bk[1]; }
+#endif
   uint32_t ver = nondet_u32(); XV_ASSUME(ver < ((uint64_t)1 << (32 - version_shift)));
   g_B->state = (in_ic << item_count_shift) | (ver << version_shift);
   for (int i = 0; i < NSLOT; ++i) havoc_cells(&g_B->key[i], &g_B->value[i], i, (uint32_t)i < in_ic);
@@ -46,7 +51,7 @@ static void build_state(int maxchain) {
     extension_item* x = POOL_ITEM(p);
     role0[p] = (p / XV_EIC < (int)in_ebc) ? (nondet_bool() ? R_FREE : R_OTHER) : R_NONE;
     chain0[p] = 0;
-    unsigned nx = nondet_uint(); x->next = (nx < POOL) ? POOL_ITEM(nx) : 0;           /* R_OTHER / R_NONE: arbitrary contents */
+    x->next = POOL_ITEM(nondet_uint());           /* R_OTHER / R_NONE: arbitrary contents */
     havoc_cells(&x->key, &x->value, 0, 0);
   }
   g_B->head = 0;
@@ -64,9 +69,10 @@ static void build_state(int maxchain) {
       if (role0[p] == R_FREE) { g_eb[b].items[jj].next = g_eb[b].head; g_eb[b].head = &g_eb[b].items[jj]; } }
   }
   /* the bystander bucket: anything */
-  g_other->state = nondet_u32(); for (int i = 0; i < NSLOT; ++i) havoc_cells(&g_other->key[i], &g_other->value[i], 0, 0);
-  { unsigned nx = nondet_uint(); g_other->head = (nx < POOL && role0[nx] == R_OTHER) ? POOL_ITEM(nx) : 0; }
-  if (in_mask == 0) g_other = 0; else g_other0 = *g_other;
+  if (g_other) {
+    g_other->state = nondet_u32(); for (int i = 0; i < NSLOT; ++i) havoc_cells(&g_other->key[i], &g_other->value[i], 0, 0);
+    g_other->head = POOL_ITEM(nondet_uint()); g_other0 = *g_other;
+  }
   XV_ASSUME(inv_B(g_B, maxchain));
   mon_prev_state = g_B->state; mon_version0 = BS_version(g_B->state);
   mon_bad_slot_store = mon_bad_state_step = mon_bad_item_store = mon_bad_frame = mon_bad_order = mon_lock_dropped = 0;
